@@ -106,3 +106,34 @@ Definition box_lo (b : Aabb.AABB R) : vec3 R := v3_sub (Aabb.AABB_center b) (Aab
 Definition box_hi (b : Aabb.AABB R) : vec3 R := v3_add (Aabb.AABB_center b) (Aabb.AABB_extents b).
 Definition dist2 (a b : vec3 R) : R :=
   ((v3x a - v3x b) * (v3x a - v3x b) + (v3y a - v3y b) * (v3y a - v3y b) + (v3z a - v3z b) * (v3z a - v3z b))%R.
+
+(* ---------------------------------------------------------------- shape-independent unfolding of generated code
+   The proofs must not depend on HOW the Go code is written (helper functions, temporaries, tuple-returning
+   helpers, named constants ...), so they never name a generated definition in [unfold]:
+   [gen_full]   computes everything down to the carrier operations (used after destructing the records: both
+                sides become constructor terms over + * - / literals, closed by ring / field);
+   [gen_unfold] unfolds every definition EXCEPT the carrier operations, the vector prelude of Geom.Vec and the
+                real-number relations, i.e. exactly the generated code and the specifications of this file, and
+                then reduces vector projections of constructors — the structure in terms of v3_dot, v3_cross,
+                v4_length ... stays visible for the proofs over R. *)
+Ltac gen_full :=
+  cbv beta iota zeta delta -[c0 c1 cadd cmul csub copp cdiv csqrt cabs cmax cmin csin ccos cpi cltb cleb ceqb cofZ cofQ
+    Rle Rlt Rge Rgt Rminus Rdiv Rmin Rmax Rabs Rsqr IZR sqrt R_carrier Q_carrier].
+Ltac gen_full_in H :=
+  cbv beta iota zeta delta -[c0 c1 cadd cmul csub copp cdiv csqrt cabs cmax cmin csin ccos cpi cltb cleb ceqb cofZ cofQ
+    Rle Rlt Rge Rgt Rminus Rdiv Rmin Rmax Rabs Rsqr IZR sqrt R_carrier Q_carrier] in H.
+Ltac gen_unfold :=
+  cbv beta iota zeta delta -[c0 c1 cadd cmul csub copp cdiv csqrt cabs cmax cmin csin ccos cpi cltb cleb ceqb cofZ cofQ
+    Rle Rlt Rge Rgt Rminus Rdiv Rmin Rmax Rabs Rsqr IZR sqrt
+    v2x v2y v3x v3y v3z v4x v4y v4z v4w
+    czero cone chalf cclamp v3_new v3_fill v3_zero v3_one v3_right v3_left v3_up v3_down v3_forward v3_backwards
+    v3_set_x v3_set_y v3_set_z v3_add v3_sub v3_scale v3_div_by_constant v3_mult_by_vector v3_dot v3_cross
+    v3_length_squared v3_length v3_normalized v3_distance_squared v3_distance v3_abs v3_min v3_max v3_min_component
+    v3_max_component v3_clamp v3_flip v3_midpoint v3_reflect v3_xy v3_xz v3_yz v3_yx v3_zx v3_zy
+    v2_new v2_fill v2_zero v2_one v2_up v2_down v2_left v2_right v2_set_x v2_set_y v2_add v2_sub v2_scale
+    v2_div_by_constant v2_mult_by_vector v2_dot v2_length_squared v2_length v2_normalized v2_distance_squared
+    v2_distance v2_abs v2_min v2_max v2_min_component v2_max_component v2_clamp v2_flip v2_perpendicular v2_midpoint v2_yx
+    v4_new v4_fill v4_zero v4_one v4_set_x v4_set_y v4_set_z v4_set_w v4_add v4_sub v4_scale v4_div_by_constant
+    v4_mult_by_vector v4_dot v4_length_squared v4_length v4_normalized v4_abs v4_min v4_max v4_min_component
+    v4_max_component v4_xyz v4_xy R_carrier Q_carrier];
+  cbn [v2x v2y v3x v3y v3z v4x v4y v4z v4w].
